@@ -107,7 +107,9 @@ class Check:
             window = [rng.choice([0, 1, 2]), rng.choice([0, 1, 2, 3])]
         _, plan = gen.gen_env(rng, world)
         return {"world": world, "cwd": cwd, "sp": sp, "follow": follow, "mode": rng.choice(["bfs", "dfs"]), "window": window, "plan": plan,
-                "symword": rng.choice(["symlinks", "sym"])}
+                "symword": rng.choice(["symlinks", "sym"]),
+                # sometimes the sibling tree is a second search root of the same query: "once per query" spans roots
+                "second_root": follow and rng.random() < 0.25, "mode2": rng.choice(["bfs", "dfs"])}
 
     def sample_view(self, case):
         c = dict(case)
@@ -118,6 +120,10 @@ class Check:
         if case["window"]:
             c = copy.deepcopy(case)
             c["window"] = None
+            yield c
+        if case.get("second_root"):
+            c = copy.deepcopy(case)
+            c["second_root"] = False
             yield c
         if case["cwd"] != "":
             c = copy.deepcopy(case)
@@ -135,7 +141,7 @@ class Check:
     def evaluate(self, case, ctx):
         world = case["world"]
         nm = gen.node_map(world)
-        if ROOT not in nm or OUTER not in nm:
+        if ROOT not in nm or OUTER not in nm or (case.get("second_root") and SIB not in nm):
             raise CaseInvalid("layout")
         cwd = case["cwd"]
         viols = []
@@ -163,7 +169,14 @@ class Check:
             opts += " " + case["mode"]
             if case["follow"]:
                 opts += " " + case.get("symword", "symlinks")
-            q = "select path from %s%s into list" % (rs, opts)
+            roots_abs = [root_abs]
+            q = "select path from %s%s" % (rs, opts)
+            if case.get("second_root"):
+                sib_abs = os.path.join(sb.root, SIB)
+                rs2 = sib_abs if sp == "abs" else os.path.relpath(sib_abs, cwd_abs)
+                q += ", %s %s %s" % (rs2, case.get("mode2", "bfs"), case.get("symword", "symlinks"))
+                roots_abs.append(sib_abs)
+            q += " into list"
             plan = dict(case["plan"], budget=3000 + 300 * len(world["nodes"]))
             res = sb.run([q], plan=plan, cwd=cwd)
             tag = ("follow" if case["follow"] else "nofollow") + ("+window" if case["window"] else "")
@@ -177,8 +190,8 @@ class Check:
             rows = [r[0].decode("utf-8", "surrogateescape") for r in res.rows(1)]
             # reachability model on the materialised world
             real_root = os.path.realpath(root_abs)
-            reach = [real_root]
-            seen = {real_root}
+            reach = [os.path.realpath(r) for r in roots_abs]
+            seen = set(reach)
             unreadable = False
             i = 0
             while i < len(reach):
